@@ -221,7 +221,7 @@ def resultsOf (inputs : List Nat) (sched : List Tid) : Option (List (Option Val 
   (lrun (linit inputs) sched []).map fun p => p.1.thr.map fun th => (th.result, th.keyError)
 
 /-- serial run of the thread with input 2: it returns its own body value 3 -/
-theorem lr_serial : resultsOf [1, 2] (List.replicate 15 1) = some [(none, false), (some 3, false)] := by
+theorem lr_serial : resultsOf [1, 2] (List.replicate 16 1) = some [(none, false), (some 3, false)] := by
   decide +kernel
 
 /-- **lr_race_witness**: thread 1 (input 2) resets, thread 0 (input 1) parses completely, thread 1 parses:
@@ -230,16 +230,16 @@ theorem lr_serial : resultsOf [1, 2] (List.replicate 15 1) = some [(none, false)
     Every lock is taken exactly as the code takes it (`evStep` checks it). -/
 theorem lr_race_witness :
     ∃ sched, resultsOf [1, 2] sched = some [(some 2, false), (some 2, false)] ∧
-      resultsOf [1, 2] (List.replicate 15 1) = some [(none, false), (some 3, false)] :=
-  ⟨[1,1,1,1] ++ List.replicate 15 0 ++ [1,1,1], by decide +kernel, lr_serial⟩
+      resultsOf [1, 2] (List.replicate 16 1) = some [(none, false), (some 3, false)] :=
+  ⟨[1,1,1,1] ++ List.replicate 16 0 ++ [1,1,1], by decide +kernel, lr_serial⟩
 
 /-- **lr_reset_race_witness**: even on the SAME input: thread 0 is inside its growth loop holding
     `recursion_lock`; thread 1 enters `parse_string`, whose `reset_cache()` clears `recursion_memos` under
     `packrat_cache_lock` only; thread 0's `memo[act_key]` (core.py:5725) raises `KeyError`. -/
 theorem lr_reset_race_witness :
     ∃ sched, resultsOf [1, 1] sched = some [(none, true), (none, false)] ∧
-      resultsOf [1, 1] (List.replicate 15 0) = some [(some 2, false), (none, false)] :=
-  ⟨List.replicate 10 0 ++ [1,1,1] ++ [0], by decide +kernel, by decide +kernel⟩
+      resultsOf [1, 1] (List.replicate 16 0) = some [(some 2, false), (none, false)] :=
+  ⟨List.replicate 11 0 ++ [1,1,1] ++ [0], by decide +kernel, by decide +kernel⟩
 
 end LR
 
